@@ -170,6 +170,31 @@ def gsequ_rules(chk, cid, prog, p, cfgname):
             chk.violate(cid, '%s:clamped-reciprocal-%s' % (f.name, nm), loc(f, x), f.name,
                         'the scale factor must be 1 / min(max(%s, smlnum), bignum) so that it stays positive, finite and inside the safe range; the code computes %s'
                         % (el, got), cfgname=cfgname)
+    # (1b) the reported ratios are min/max of the *clamped* factors: r[k] = 1/clamp(rmax_k), so min(R)/max(R) = clamp(rcmin)/clamp(rcmax)
+    for nm in ('rowcnd', 'colcnd'):
+        k = ppos(f, nm)
+        if not k:
+            continue
+        pidv = f.params[k - 1][1]
+        st = [x for x in f.body.walk() if x.k == 'Assign' and x.a['op'] == '=' and strip(x.c[0]).k == 'Unary' and strip(strip(x.c[0]).c[0]).k == 'Ref'
+              and strip(strip(x.c[0]).c[0]).a.get('id') == pidv and strip(x.c[1]).k == 'Binary' and strip(x.c[1]).a['op'] == '/']
+        n += 1
+        if len(st) != 1:
+            chk.violate(cid, '%s:ratio-%s' % (f.name, nm), loc(f, f.body), f.name, 'expected exactly one store *%s = <ratio> (found %d)' % (nm, len(st)), cfgname=cfgname)
+            continue
+        got = role_text(strip(st[0].c[1]))
+        m = re.match(r'^\(max\((.*)\) / min\((.*)\)\)$', got)
+        okk = False
+        if m:
+            a_, b_ = [t.strip() for t in m.group(1).split(',')], [t.strip() for t in m.group(2).split(',')]
+            okk = len(a_) == 2 and len(b_) == 2 and 'SML' in a_ and 'BIG' in b_
+        if okk:
+            chk.ok(cid, '%s:ratio-of-clamped-extremes-%s' % (f.name, nm), sample=got)
+        else:
+            chk.violate(cid, '%s:ratio-of-clamped-extremes-%s' % (f.name, nm), loc(f, st[0]), f.name,
+                        '*%s must be max(smallest maximum, smlnum) / min(largest maximum, bignum): the scale factors are reciprocals of the clamped '
+                        'maxima, so the ratio of the unclamped extremes (%s) is not min/max of the factors that are returned when an extreme lies '
+                        'outside the safe range' % (nm, got), cfgname=cfgname)
     # (2) info convention for empty rows / columns
     infoid = f.params[kinfo - 1][1]
     Aid = f.params[kA - 1][1]
